@@ -1,12 +1,13 @@
 (* Wire-level entry point of the C06 model (revocation bitmaps).
-   kind 1: <LP set> <LP zbytes>                      -> len c0 c1 c2 of the endpoint text, then result of try_from(to_service)
-   kind 2: <LP set> <LP zbytes>                      -> result of decoding the legacy double-encoded form of the same text
-   kind 3: type_ok eptag <LP text> ntab (<LP zbytes> flag <LP set>)..      -> result of try_from on that service (eptag 1 = single url)
-   kind 4: nsvc (d r f type_ok bitmapflag <LP set>).. nops (op qd? qf? <LP idxs>).. ntab (<LP set> <LP zbytes>)..
+   zlib is recorded per case as a table (roaring bytes <-> z bytes); the roaring bytes themselves are computed / decoded by the model.
+   kind 1: <LP set> <LP rbytes> <LP zbytes>          -> len c0 c1 c2 of the endpoint text, then result of try_from(to_service)
+   kind 2: <LP set> <LP rbytes> <LP zbytes>          -> result of decoding the legacy double-encoded form of the same text
+   kind 3: type_ok eptag <LP text> ntab (<LP zbytes> flag <LP inflated bytes>)..      -> result of try_from on that service (eptag 1 = single url)
+   kind 4: nsvc (d r f type_ok bitmapflag <LP set>).. nops (op qd? qf? <LP idxs>).. ntab (<LP rbytes> <LP zbytes>)..
            op 0 revoke, 1 unrevoke; after every op: ok flag, then per service the result of resolving it by its own id
    result = 0 n digest | 1           digest = all members when n <= 64, else sum-mod-2^61 first last *)
 From Coq Require Import List ZArith NArith Bool.
-From IdV Require Import Lib.Wire Lib.Base64 Doc.Doc Cred.Bitmap Run.C04Run Run.C07Run Run.C02Run.
+From IdV Require Import Lib.Wire Lib.Base64 Doc.Doc Cred.Bitmap Cred.Roaring Run.C04Run Run.C07Run Run.C02Run.
 Import ListNotations.
 Open Scope Z_scope.
 
@@ -35,7 +36,7 @@ Definition rtab4 : rd (list N * list N) := s <- rlp ;; z <- rlp ;; ret (s, z).
 Definition rtab3 : rd (list N * option (list N)) := z <- rlp ;; f <- rz ;; s <- rlp ;; ret (z, if f =? 0 then None else Some s).
 
 Definition c06_kind4 (svcs : list (url * bool * option (list N))) (ops : list (Z * query * list N)) (tab : list (list N * list N)) : list Z :=
-  let comp := tab_comp tab in let decomp := tab_decomp (inv_tab tab) in
+  let comp := comp_r (tab_comp tab) in let decomp := decomp_r (tab_decomp (inv_tab tab)) in
   let d0 : bdoc := map (fun e => match e with (u, t, so) => {| bs_id := u; bs_type_ok := t; bs_ep := (match so with Some s => to_endpoint comp s | None => EpOther end) |} end) svcs in
   let observe (d : bdoc) := flat_map (fun sv => w_res (resolve_bitmap decomp legacy_fixed d (query_of_url (bs_id sv)))) d in
   snd (fold_left (fun (acc : bdoc * list Z) o =>
@@ -48,9 +49,9 @@ Definition c06_run (input : list Z) : list Z :=
   match input with
   | k :: l =>
     if (k =? 1) || (k =? 2) then
-      match (s <- rlp ;; z <- rlp ;; ret (s, z)) l with
-      | Some ((s, z), _) =>
-          let comp := tab_comp [(s, z)] in let decomp := tab_decomp [(z, Some s)] in
+      match (s <- rlp ;; rb <- rlp ;; z <- rlp ;; ret (s, rb, z)) l with
+      | Some ((s, rb, z), _) =>
+          let comp := comp_r (tab_comp [(rb, z)]) in let decomp := decomp_r (tab_decomp [(z, Some rb)]) in
           let text := ser64 comp s in
           if k =? 1 then Z.of_nat (length text) :: zl (firstn 3 text) ++ w_res (try_from_service decomp legacy_fixed (to_service comp (c04_url 1 0 7) s))
           else w_res (deser64 decomp legacy_fixed (b64s_encode text))
@@ -58,7 +59,7 @@ Definition c06_run (input : list Z) : list Z :=
     else if k =? 3 then
       match (t <- rb ;; e <- rz ;; x <- rlp ;; tab <- rlist rtab3 ;; ret (t, e, x, tab)) l with
       | Some ((t, e, x, tab), _) =>
-          w_res (try_from_service (tab_decomp tab) legacy_fixed {| bs_id := c04_url 1 0 7; bs_type_ok := t; bs_ep := if e =? 1 then EpOne x else EpOther |})
+          w_res (try_from_service (decomp_r (tab_decomp tab)) legacy_fixed {| bs_id := c04_url 1 0 7; bs_type_ok := t; bs_ep := if e =? 1 then EpOne x else EpOther |})
       | None => ERR_DECODE end
     else if k =? 4 then
       match (sv <- rlist rsvc4 ;; ops <- rlist rop4 ;; tab <- rlist rtab4 ;; ret (sv, ops, tab)) l with
